@@ -17,8 +17,8 @@ FILES = ["src/bytes.rs", "src/bytes_mut.rs", "src/buf/buf_impl.rs", "src/buf/buf
          "src/buf/iter.rs", "src/fmt/debug.rs", "src/fmt/hex.rs"]
 # which checks look at a file: (property, --only regex or None)
 CHECKS = {
-    "src/bytes.rs": [("C02", "verif_incrate"), ("C01", "seq::|misc_"), ("C13", "ooc")],
-    "src/bytes_mut.rs": [("C02", "verif_incrate"), ("C01", "seq::|misc_"), ("C13", "ooc")],
+    "src/bytes.rs": [("C02", "verif_incrate"), ("C14", None), ("C01", "seq::|misc_"), ("C13", "ooc")],
+    "src/bytes_mut.rs": [("C02", "verif_incrate"), ("C14", None), ("C01", "seq::|misc_"), ("C13", "ooc")],
     "src/buf/buf_impl.rs": [("C10", "_u16_|_i32_le|_u64_ne|_int_|_uint_le|get_u8|get_i8|f32"), ("C09", None)],
     "src/buf/buf_mut.rs": [("C11", "c11x|_u16_|_i32_le|_int_|put_u8|put_i8"), ("C13", "c11x|too_wide")],
     "src/buf/chain.rs": [("C09", None), ("C12", None), ("C11", "c11x|chain")],
